@@ -193,6 +193,8 @@ class SimDevice(object):
             r = self.remote_ids.pop(0)
             if r == "same":
                 r = local
+            elif isinstance(r, (tuple, list)) and r[0] == "rot":
+                r = (local % int(r[1])) + 1       # the device's ids are a rotation of the host's: streams with MIRRORED id pairs exist side by side
             return r
         r = self.next_remote
         self.next_remote += 1
